@@ -417,7 +417,13 @@ def run_gauge(case):
             tag = f"T{k % case['n']}"
             if tag not in tn.tag_map:
                 raise Reject("tag gone")
-            tn = tn.gauge_local(tag, max_distance=1 + k % 2, method=["canonize", "simple"][(k // 5) % 2], inplace=bool(k % 2))
+            kw = {}
+            eq = (k // 10) % 4
+            if eq == 1:
+                kw["equalize_norms"] = True  # options forwarded to the chosen gauging method
+            elif eq == 2:
+                kw["equalize_norms"] = 1.0
+            tn = tn.gauge_local(tag, max_distance=1 + k % 2, method=["canonize", "simple"][(k // 5) % 2], inplace=bool(k % 2), **kw)
         elif name == "insert_gauge":
             bonds = list(tn[t1].bonds(tn[t2]))
             if len(bonds) != 1:
